@@ -194,6 +194,20 @@ def gen(ctx, seed, tier):
             cases.append("R %s2f%s %s" % (a, b, a))
             cases.append("R %s %s2f%s" % (a, a, b))
             cases.append("P %s2f%s" % (a, b))
+    # results that climb k levels (no depth is special): base has k more names than the common prefix,
+    # path continues with j names; plain, under a root, with a trailing separator, with '.' and '..' mixed in
+    for k in list(range(0, 41)) + ([64, 65, 127, 128, 129, 255, 256, 257] if thorough else [64, 65]):
+        ups = ["n%d" % i for i in range(k)]
+        for j in (0, 1, 3):
+            downs = ["x%d" % i for i in range(j)]
+            for pre in ("", "/", "c/", "/c/"):
+                pa = pre + "/".join(downs)
+                ba = pre + "/".join(ups)
+                cases.append("R %s %s" % (hx(pa.encode()), hx(ba.encode())))
+                if k and j != 3:
+                    cases.append("R %s %s" % (hx((pa + "/").encode()), hx((ba + "/").encode())))
+                    cases.append("R %s %s" % (hx(pa.encode()), hx((pre + "/".join(ups + [".."] + ["."])).encode())))
+                    cases.append("R %s %s" % (hx(pa.encode()), hx((pre + "//".join(ups)).encode())))
     # the same calls with an allocator that refuses every request (NULL, no write through it)
     s3 = [hx(s) for s in all_strings(3 if not thorough else 4)]
     for a in s3:
